@@ -101,6 +101,19 @@ class Sched:
         if self.aborting:
             raise _Abort()
 
+    def hold(self):
+        """park without it counting as a step: the thread continues (up to its first shared
+        operation) only at the moment the controller gives it its first step"""
+        t = getattr(self.tl, "t", None)
+        if t is None:
+            return
+        t.pending = "__hold__"
+        self.ctrl.release()
+        t.sem.acquire()
+        t.pending = None
+        if self.aborting:
+            raise _Abort()
+
     def current(self) -> Optional[int]:
         t = getattr(self.tl, "t", None)
         return None if t is None else t.tid
@@ -148,6 +161,9 @@ class Sched:
     def step(self, tid: int):
         """give thread `tid` one step; a blocked or finished thread stutters"""
         t = self.threads[tid]
+        if t.pending == "__hold__" and not t.finished:
+            t.sem.release()
+            self._wait()  # now parked at its first shared operation (or finished)
         self.fine.append(tid)
         if t.finished:
             self.labels.append(f"{tid}:-")
@@ -174,14 +190,19 @@ class Sched:
 class FakeLock:
     """stands in for `threading.Lock` / `distributed.Lock`; acquire parks while held"""
 
-    def __init__(self, sched: Sched):
-        self.sched = sched
+    def __init__(self, sched: Optional[Sched] = None):
         self.holder: Optional[int] = None
+
+    @property
+    def sched(self) -> Sched:
+        return CURRENT["sched"]  # lock objects outlive the attempt that created them
 
     def acquire(self, *a, **kw):
         self.sched.yield_point("acq", blocked=lambda: self.holder is not None)
         assert self.holder is None
         self.holder = self.sched.current()
+        if self.holder is None:
+            self.holder = -1  # taken by sequential (unscheduled) history code
         return True
 
     def release(self):
@@ -200,9 +221,12 @@ class FakeLock:
 class InstrDict(dict):
     """stands in for the module dict `_s3._state`: every access is a scheduler yield point"""
 
-    def __init__(self, sched: "Sched"):
+    def __init__(self, sched: Optional["Sched"] = None):
         super().__init__()
-        self._sched = sched
+
+    @property
+    def _sched(self) -> "Sched":
+        return CURRENT["sched"]
 
     def get(self, k, d=None):
         self._sched.yield_point("sget")
@@ -230,13 +254,21 @@ class InstrDict(dict):
 
 
 class FakeS3:
-    def __init__(self, sched: Sched):
-        self.sched = sched
+    def __init__(self, sched: Optional[Sched] = None):
         self.calls: List[str] = []
         self.ncreate = 0
         self.uploads: List[Tuple[int, str]] = []
         self.ids: List[str] = []
         self.used_ids: List[str] = []
+
+    @property
+    def sched(self) -> Sched:
+        return CURRENT["sched"]
+
+    def abort_multipart_upload(self, Bucket, Key, UploadId):  # noqa: N803
+        self.sched.yield_point("abort")
+        self.calls.append(f"abort={UploadId}")
+        return {}
 
     def create_multipart_upload(self, Bucket, Key, **kw):  # noqa: N803
         self.sched.yield_point("create")
@@ -267,8 +299,7 @@ class FakeClient:
 class Cluster:
     """state of the fake cluster: named variables and locks"""
 
-    def __init__(self, sched: Sched):
-        self.sched = sched
+    def __init__(self, sched: Optional[Sched] = None):
         self.vars: Dict[str, Any] = {}
         self.locks: Dict[str, FakeLock] = {}
         self.client = FakeClient()
@@ -311,7 +342,7 @@ class FakeDLock:
 
     def __init__(self, name=None, client=None):
         cl: Cluster = CURRENT["cluster"]
-        self._lk = cl.locks.setdefault(name, FakeLock(cl.sched))
+        self._lk = cl.locks.setdefault(name, FakeLock())
 
     def acquire(self, *a, **kw):
         return self._lk.acquire()
@@ -364,31 +395,66 @@ def instr_mpu_class():
     return cls
 
 
+def clone(obj, how: str):
+    """a copy of a writer / sink the way dask, multiprocessing or user code would make one"""
+    import copy
+
+    if how == "pickle":
+        return pickle.loads(pickle.dumps(obj))
+    if how == "deepcopy":
+        return copy.deepcopy(obj)
+    if how == "copy":
+        return copy.copy(obj)
+    raise ValueError(how)
+
+
+KW = {"ContentType": "image/tiff"}
+
+
 class System:
     """One configuration of the real code, ready to be scheduled.
 
     kinds   : list of "w<part>" / "f"  (a write of that part / a finalise)
-    workers : None → local variant (one shared writer object, no client);
-              list of worker numbers → cluster variant (one unpickled copy per worker)
+    workers : None → in-process attempt (no dask client exists, one shared writer object);
+              list of worker numbers → cluster attempt (a client exists; one copy of the
+              writer per worker, made by pickle or deepcopy)
+    opts    : bool (gate the finalise behind the writes) or a dict
+        gate   : as above
+        pre    : HISTORY - phases executed (sequentially, unscheduled) before the attempt in the
+                 same process / on the same scheduler; `_s3._state`, the fake cluster's variables
+                 and locks and the S3 service persist.  A phase is
+                   {"op": "ask", "client": bool}      somebody builds a writer (mpu.writer(kw)) and drops it
+                   {"op": "attempt", "client": bool, "parts": [...], "workers": [...], "end": e}
+                 an earlier attempt for the same bucket/key, ending in "finalise", "abort"
+                 (mpu.cancel()) or "crash" (nothing: task failure / interrupt before finalise)
+        copies : how the per-worker copies are made ("pickle" | "deepcopy")
+        chain  : thread i may start only when thread i-1 has returned
+        late_clone : per thread None or "pickle" | "copy" | "deepcopy": the thread does not use its
+                 worker's writer but a copy of writer 0 taken at the moment the thread starts
+    The REAL `_dask_client`, `MultiPartUpload.writer`, `prep_client`, `_shared`, `_build_name`,
+    `_mpu_local_lock` run throughout; only distributed.get_client / Variable / Lock, `_s3._state`,
+    `_s3.Lock` and the S3 client are substituted.
     """
 
     def __init__(self, kinds: List[str], workers: Optional[List[int]] = None,
-                 coarse: Optional[frozenset] = None, gate_fin: bool = False):
+                 coarse: Optional[frozenset] = None, gate_fin: Any = False):
         import distributed
         from odc.geo.cog import _s3
 
+        opts = gate_fin if isinstance(gate_fin, dict) else {"gate": bool(gate_fin)}
+        self.opts = opts
         self._s3mod = _s3
         self._dist = distributed
         self.kinds = kinds
         self.workers = workers
         self.sched = Sched(coarse)
-        self.s3 = FakeS3(self.sched)
-        self.cluster = Cluster(self.sched)
-        self.state = InstrDict(self.sched)  # no lock yet: first S3 write of the process
+        self.s3 = FakeS3()
+        self.cluster = Cluster()
+        self.state = InstrDict()  # no lock yet: first S3 write of the process
         self.made_locks: List[FakeLock] = []
 
         def make_lock():
-            lk = FakeLock(self.sched)
+            lk = FakeLock()
             self.made_locks.append(lk)
             return lk
 
@@ -406,30 +472,75 @@ class System:
         _s3._state = self.state  # pylint: disable=protected-access
         _s3.Lock = make_lock
 
-        mpu = instr_mpu_class()("bucket", "some/key.tif")
+        cls = instr_mpu_class()
+        # ---- history (runs on this thread: yield points are no-ops, steps are sequential)
+        for ph in opts.get("pre", []):
+            CURRENT["local"] = not ph["client"]
+            m0 = cls("bucket", "some/key.tif")
+            w0 = m0.writer(dict(KW))  # the real `_dask_client` decides; `prep_client` if a client exists
+            if ph["op"] == "ask":
+                continue
+            if ph["client"]:
+                wk = ph.get("workers") or [0] * len(ph["parts"])
+                cps = [clone(w0, "pickle") for _ in range(max(wk) + 1)]
+            else:
+                wk = [0] * len(ph["parts"])
+                cps = [w0]
+            parts = [cps[w](p, b"x" * p) for p, w in zip(ph["parts"], wk)]
+            if ph["end"] == "finalise":
+                cps[-1].finalise(parts)
+            elif ph["end"] == "abort":
+                cps[0].mpu.cancel()
+        # ---- what the model needs to know about the state the attempt starts in
+        self.base_create = self.s3.ncreate
+        self.base_calls = len(self.s3.calls)
+        self.base_uploads = len(self.s3.uploads)
+        self.base_used = len(self.s3.used_ids)
+        left = None
+        for nm in self.cluster.var_names:
+            left = self.cluster.vars.get(nm, None)
         if workers is None:
-            writer = mpu.writer({"ContentType": "image/tiff"})  # real code: no client found
+            self.model_extra = " P" if dict.__contains__(self.state, "mpu_lock") else ""
+        else:
+            self.model_extra = "" if not opts.get("pre") else (" N" if left is None else " S")
+
+        # ---- the attempt
+        CURRENT["local"] = workers is None
+        mpu = cls("bucket", "some/key.tif")
+        writer = mpu.writer(dict(KW))  # real code: looks for a client itself
+        if workers is None:
             self.writers = [writer]
             wof = [0] * len(kinds)
         else:
-            writer = mpu.writer({"ContentType": "image/tiff"}, client=self.cluster.client)  # prep_client
-            blob = pickle.dumps(writer)
-            self.writers = [pickle.loads(blob) for _ in range(max(workers) + 1)]
+            how = opts.get("copies", "pickle")
+            self.writers = [clone(writer, how) for _ in range(max(workers) + 1)]
             wof = workers
         self.wof = wof
-        for k, w in zip(kinds, wof):
-            wr = self.writers[w]
+        late = opts.get("late_clone") or [None] * len(kinds)
+
+        def pick(i):
+            if late[i] is None:
+                return self.writers[wof[i]]
+            self.sched.hold()  # the copy is taken when the thread gets its first step, not at set-up
+            wr = clone(self.writers[0], late[i])
+            self.writers.append(wr)
+            return wr
+
+        for i, k in enumerate(kinds):
             if k == "f":
-                self.sched.spawn(lambda wr=wr: wr.finalise([{"PartNumber": 1, "ETag": "etag1"}]))
+                self.sched.spawn(lambda i=i: pick(i).finalise([{"PartNumber": 1, "ETag": "etag1"}]))
             else:
                 part = int(k[1:])
-                self.sched.spawn(lambda wr=wr, part=part: wr(part, b"x" * part))
-        if gate_fin:
+                self.sched.spawn(lambda i=i, part=part: pick(i)(part, b"x" * part))
+        if opts.get("gate"):
             # a finalise is given its parts by the writes: it cannot start before they returned
             ws = [i for i, k in enumerate(kinds) if k != "f"]
             for i, k in enumerate(kinds):
                 if k == "f":
                     self.sched.gate[i] = lambda ws=ws: any(not self.sched.threads[j].finished for j in ws)
+        if opts.get("chain"):
+            for i in range(1, len(kinds)):
+                self.sched.gate[i] = lambda i=i: not self.sched.threads[i - 1].finished
 
     def close(self):
         self.sched.abort()
@@ -437,6 +548,22 @@ class System:
         d.get_client, d.Variable, d.Lock, s3._state, s3.Lock = self._saved  # pylint: disable=protected-access
 
     # ---- observation
+    def canon(self, uid) -> str:
+        """upload ids relative to the attempt: `id<k>` = k-th upload created by the attempt,
+        `old<n>` = an id that an earlier attempt of the history obtained"""
+        if uid is None:
+            return "N"
+        if not uid:
+            return chr(34) * 2
+        if isinstance(uid, str) and uid.startswith("id") and uid[2:].isdigit():
+            n = int(uid[2:])
+            return f"id{n - self.base_create}" if n > self.base_create else f"old{n}"
+        return str(uid)
+
+    def canon_call(self, c: str) -> str:
+        head, uid = c.rsplit("=", 1)
+        return f"{head}={self.canon(uid if uid != chr(34) * 2 else '')}"
+
     def outcome(self, tid: int) -> str:
         t = self.sched.threads[tid]
         if not t.finished:
@@ -457,19 +584,20 @@ class System:
 
     def describe(self) -> str:
         """canonical text of the run, same format as the Lean driver"""
-        q = chr(34) * 2
-        uids = [w.mpu.__dict__["_uid"] or q for w in self.writers]
+        nw = 1 if self.workers is None else max(self.workers) + 1
+        uids = [self.canon(w.mpu.__dict__["_uid"]) for w in self.writers[:nw]]
         if self.workers is None:
             ids = "uid=" + uids[0]
         else:
             v = None
             for nm in self.cluster.var_names:
                 v = self.cluster.vars.get(nm, None)
-            ids = "uid=" + ",".join(uids) + " var=" + ("N" if v is None else v)
+            ids = "uid=" + ",".join(uids) + " var=" + self.canon(v)
         outs = ",".join(self.outcome(i) for i in range(len(self.kinds)))
         h = self.lock_holder()
+        calls = [self.canon_call(c) for c in self.s3.calls[self.base_calls:]]
         return (
-            f"{','.join(self.sched.labels)} ; {','.join(self.s3.calls)} ; {ids} ; {outs} ; "
+            f"{','.join(self.sched.labels)} ; {','.join(calls)} ; {ids} ; {outs} ; "
             f"lock={'free' if h is None else h}"
         )
 
@@ -527,18 +655,20 @@ def all_schedules(kinds, workers, coarse: Optional[frozenset] = None, root: Opti
 
 
 def observe(sysm: System) -> Dict[str, Any]:
-    """everything the harness needs from a finished run, as plain data"""
+    """everything the harness needs from a finished run, as plain data (relative to the attempt)"""
+    bc = sysm.base_create
     return {
         "fine": list(sysm.sched.fine),
         "labels": list(sysm.sched.labels),
-        "calls": list(sysm.s3.calls),
+        "calls": [sysm.canon_call(c) for c in sysm.s3.calls[sysm.base_calls:]],
         "text": sysm.describe(),
+        "extra": sysm.model_extra,
         "outcomes": [sysm.outcome(i) for i in range(len(sysm.kinds))],
         "results": [repr(t.result) for t in sysm.sched.threads],
-        "ncreate": sysm.s3.ncreate,
-        "ids": list(sysm.s3.ids),
-        "used_ids": list(sysm.s3.used_ids),
-        "uploads": list(sysm.s3.uploads),
+        "ncreate": sysm.s3.ncreate - bc,
+        "ids": [sysm.canon(u) for u in sysm.s3.ids[bc:]],
+        "used_ids": [sysm.canon(u) for u in sysm.s3.used_ids[sysm.base_used:]],
+        "uploads": [(p, sysm.canon(u)) for p, u in sysm.s3.uploads[sysm.base_uploads:]],
         "deadlock": bool(getattr(sysm, "deadlock", False)),
         "lock": sysm.lock_holder(),
     }
@@ -594,7 +724,7 @@ def run_random(kinds, workers, seed: int, stutter_p: float = 0.15, gate_fin: boo
             if rng.random() < stutter_p:
                 tid = rng.randrange(n)
                 if tid in sysm.sched.gate and tid not in en:
-                    continue  # a gated finalise has not been submitted yet
+                    continue  # a gated thread has not been submitted yet
             else:
                 tid = rng.choice(en)
             sysm.sched.step(tid)
